@@ -45,6 +45,7 @@ class CrateInfo:
         self.inherent_hdr = {}    # inherent impl fn name -> self type text of its impl header
         self.aliases_full = {}    # non-generic alias -> full aliased type text
         self.traits = set()       # traits defined in this crate
+        self.aliases_lt = {}      # alias with lifetime parameters only -> full aliased type text (EntRef<'a> = &'a AnyEnt<'a>)
         self.aliases = {}         # type alias name -> last segment of the aliased type
         for d in src_dirs:
             self._scan_items(os.path.join(repo_root, d))
@@ -120,6 +121,8 @@ class CrateInfo:
                 tname = strip_generics(trait)
                 tbase = tname.split('<')[0].split('::')[-1]
                 targs = trait[trait.index('<') + 1:trait.rindex('>')] if '<' in trait else ''
+                for a, full in self.aliases_lt.items():
+                    if a in targs: targs = re.sub(r"\b%s\b(<'\w+>)?" % a, lambda _m: full, targs)
                 self.trait_impls.setdefault((self.aliases.get(last_seg(ty), last_seg(ty)), tbase, meth), []).append((targs, generics, ty, name))
             else:
                 self.inherent.setdefault((self.aliases.get(last_seg(hdr), last_seg(hdr)), meth), []).append(name)
@@ -152,6 +155,7 @@ class CrateInfo:
             if tgt and tgt[0].isupper() and tgt != m.group(1):
                 self.aliases[m.group(1)] = tgt
                 if not m.group(2): self.aliases_full[m.group(1)] = m.group(3).strip()
+                elif re.fullmatch(r"<\s*'\w+(\s*,\s*'\w+)*\s*>", m.group(2)): self.aliases_lt[m.group(1)] = m.group(3).strip()
         for m in re.finditer(r'\b(enum|struct)\s+(\w+)\s*(<[^{;(]*?>)?\s*(where[^{;]*)?\{', clean):
             kind, name = m.group(1), m.group(2)
             i = m.end(); dpt = 1; j = i
